@@ -11,7 +11,7 @@ from . import c01, c02
 from .indexfx import index_effects
 
 PROP = "C03"
-FLOORS = {"C03.R1": 7, "C03.R2": 4, "C03.R3": 4, "C03.R4": 4, "C03.R5": 3, "C03.R6": 1}
+FLOORS = {"C03.R1": 7, "C03.R2": 4, "C03.R3": 4, "C03.R4": 4, "C03.R5": 3, "C03.R6": 1, "C03.R7": 6}
 META = {
     "explanation": "register and unregister are summarised into symbolic index effects (index, key term, value term, +/-, "
                    "iteration space) and compared as inverses including multiplicity; every re-definition path (set_value, load) "
@@ -232,3 +232,8 @@ def check(col: Collector):
     _rebuild(col)
     _refcount(col)
     _self_check(col)
+    # "reacts to every later assignment exactly like a fresh manager": which tasks an assignment triggers is read off
+    # deptasks alone, never off the presence of keys that depends on the history (defaultdict entries left by register,
+    # swept by cleanup)
+    from .common import shared
+    shared(col, "C03.R7", [c01._trigger_closure], why="the trigger closure must not consult history-dependent state")
